@@ -13,6 +13,8 @@ from dataclasses import dataclass, field
 
 VERIF_DIR = os.path.dirname(os.path.dirname(os.path.abspath(__file__)))
 REPO_SRC = os.environ.get("VERIF_REPO_SRC", "/repo/src")
+# evidence/ and replays/ go here (overridden by the mutant self-test so it never touches committed files)
+OUT_DIR = os.environ.get("VERIF_OUT", VERIF_DIR)
 
 
 def setup_imports() -> None:
